@@ -345,7 +345,7 @@ def m_result_err_ok(ex, st, callee, args, dty, m):
 
 
 # ---------------------------------------------------------------- integers <-> bytes
-@model(r"(?:core|std)::num::<impl (u16|u32|u64|u128|usize|i32|i64)>::from_(be|le)_bytes$")
+@model(r"(?:core|std)::num::<impl (u8|u16|u32|u64|u128|usize|i32|i64)>::from_(be|le)_bytes$")
 def m_from_bytes(ex, st, callee, args, dty, m):
     ty, end = m.group(1), m.group(2)
     w, s = INT_TYPES[ty]
@@ -402,6 +402,31 @@ def m_int_max_min(ex, st, callee, args, dty, m):
     which = m.group(1) or m.group(4)
     pick_a = z3.UGE(a.bv, b.bv) if which == "max" else z3.ULE(a.bv, b.bv)
     return I(z3.If(pick_a, a.bv, b.bv), a.signed)
+
+
+# ---------------------------------------------------------------- arithmetic operator traits on primitive integers (`x -= *y`, `a + &b`)
+@model(r"<&?(u8|u16|u32|u64|u128|usize) as (?:std::ops::|core::ops::)?(Add|Sub|Mul)(Assign)?<&?\1>>::(?:add|sub|mul)(?:_assign)?$")
+def m_int_op_trait(ex, st, callee, args, dty, m):
+    opn, assign = m.group(2), bool(m.group(3))
+    a0, b0 = args
+    b = deref(ex, b0) if isinstance(b0, Ref) else b0
+    a = deref(ex, a0) if isinstance(a0, Ref) else a0
+    if not (isinstance(a, I) and isinstance(b, I)):
+        return NotImplemented
+    r = ex.binop(opn + "WithOverflow", a, b)
+    val, ov = r.fields
+    what = "attempt to %s with overflow (%s)" % ({"Add": "add", "Sub": "subtract", "Mul": "multiply"}[opn], callee[:50])
+    if assign:
+        if not isinstance(a0, Ref):
+            return NotImplemented
+
+        def store(ex_, st_, arg):
+            ref, value = arg
+            ex_.set_path(ref.cell, ref.path, value)
+            return UNIT
+        # primitive operator impls inherit the caller's overflow checks (#[rustc_inherit_overflow_checks]): this build has them on
+        return ("__fork__", [(z3.Not(ov), ("__thunk__", store, (a0, val))), (ov, PathEnd("panic", what))])
+    return ("__fork__", [(z3.Not(ov), val), (ov, PathEnd("panic", what))])
 
 
 # ---------------------------------------------------------------- comparisons
@@ -1063,12 +1088,12 @@ def iter_driver(ex, kind, items, closure, dty):
     return ("__inline__", b, [env] + list(items))
 
 
-@model(r"<(?:std|core)::slice::Iter(?:Mut)?<'_, .*> as Iterator>::(for_each|all|any|position|find)::<.*>$|<(?:std::collections::)?vec_deque::Iter(?:Mut)?<'_, .*> as Iterator>::(for_each|all|any|position|find)::<.*>$")
+@model(r"<(?:std|core)::slice::Iter(?:Mut)?<'_, .*> as Iterator>::(for_each|all|any|position|find)::<.*>$|<(?:std::collections::)?vec_deque::Iter(?:Mut)?<'_, .*> as Iterator>::(for_each|all|any|position|find)::<.*>$|<(?:std::iter::|core::iter::)?TakeWhile<.*> as Iterator>::(for_each|all|any|position|find)::<.*>$")
 def m_iter_adaptor(ex, st, callee, args, dty, m):
     items = _seq_item_refs(ex, args[0])
     if items is None:
         return NotImplemented
-    kind = m.group(1) or m.group(2)
+    kind = m.group(1) or m.group(2) or m.group(3)
     if kind == "find":
         # the predicate receives `&Self::Item`; the result is the item itself
         res = iter_driver(ex, "find", [Ref(Cell(it), ()) for it in items], args[1], dty)
@@ -1107,6 +1132,59 @@ def m_range_adaptor(ex, st, callee, args, dty, m):
                     pb.stmts[0] = ("assign", ("local", "_0"), ("variant", "Option::Some", [("copy", ("deref", ("local", "_%d" % (i + 2))))]))
         return res
     return iter_driver(ex, kind, vals, args[1], dty)
+
+
+# ---------------------------------------------------------------- take_while adaptor (evaluated when the adaptor is built: the prefix of
+# a concrete-length sequence on which the predicate holds; equivalent to the lazy adaptor for predicates without side effects)
+@model(r"<(?:std|core)::slice::Iter(?:Mut)?<'_, .*> as Iterator>::take_while::<.*>$|<(?:std::collections::)?vec_deque::Iter(?:Mut)?<'_, .*> as Iterator>::take_while::<.*>$")
+def m_iter_take_while(ex, st, callee, args, dty, m):
+    items = _seq_item_refs(ex, args[0])
+    if items is None:
+        return NotImplemented
+    closure = args[1]
+    cbody = ex.closure_body(closure)
+    if cbody is None:
+        return NotImplemented
+    n = len(items)
+    _DRIVER_COUNT[0] += 1
+    k = _DRIVER_COUNT[0]
+    b = _MIR.Body("__iter_take_while_%d" % k, "synthetic")
+    b.args = [("_1", "env")] + [("_%d" % (i + 2), "item") for i in range(n)]
+    b.locals = dict(b.args)
+    b.locals["_0"] = dty or "TakeWhile"
+    res = "_%d" % (n + 2)
+    b.locals[res] = "bool"
+    tok_call = "__closure_call__%d" % k
+    tok_done = "__take_while_done__%d" % k
+
+    def done(ex_, st_, callee_, a, dt, mm, items=items):
+        cnt = as_int(a[0])
+        return Agg("struct", "SeqIter", [Ref(Cell(Seq(list(items[:cnt]))), ()), u64(0)])
+    ex.models = [(re.compile(re.escape(tok_call) + "$"), lambda ex_, st_, callee_, a, dt, mm, cb=cbody: ("__inline__", cb, a)),
+                 (re.compile(re.escape(tok_done) + "$"), done)] + list(ex.models)
+
+    def blk(name):
+        bb = _MIR.Block(name, False)
+        b.blocks[name] = bb
+        return bb
+    for i in range(n):
+        bb = blk("bb%d" % (2 * i))
+        bb.term = ("call", ("local", res), tok_call, [("copy", ("local", "_1")), ("copy", ("local", "_%d" % (i + 2)))], {"return": "bb%d" % (2 * i + 1)})
+        chk = blk("bb%d" % (2 * i + 1))
+        chk.term = ("switch", ("copy", ("local", res)), [("0", "bbD%d" % i), ("otherwise", "bb%d" % (2 * i + 2))])
+        d = blk("bbD%d" % i)
+        d.term = ("call", ("local", "_0"), tok_done, [("const", "%d_usize" % i)], {"return": "bbR"})
+    end = blk("bb%d" % (2 * n))
+    end.term = ("call", ("local", "_0"), tok_done, [("const", "%d_usize" % n)], {"return": "bbR"})
+    blk("bbR").term = ("return",)
+    by_ref = cbody.args[0][1].lstrip().startswith("&")
+    env = closure
+    if by_ref and not isinstance(closure, Ref):
+        env = Ref(Cell(closure), (), True)
+    if not by_ref and isinstance(closure, Ref):
+        env = deref(ex, closure)
+    # the predicate receives `&Self::Item` (Item = &T): a reference to the element reference
+    return ("__inline__", b, [env] + [Ref(Cell(it), ()) for it in items])
 
 
 # ---------------------------------------------------------------- filter adaptor (lazy: each next() searches on from the current position)
@@ -1215,6 +1293,16 @@ def m_deque_iter(ex, st, callee, args, dty, m):
 @model(r"<(?:std::collections::)?vec_deque::Iter(?:Mut)?<'_, .*> as Iterator>::next$|<(?:std|core)::slice::IterMut<'_, .*> as Iterator>::next$")
 def m_deque_iter_next(ex, st, callee, args, dty, m):
     return m_slice_iter_next(ex, st, callee, args, dty, m)
+
+
+@model(r"VecDeque::<(.*)>::pop_front$")
+def m_vecdeque_pop_front(ex, st, callee, args, dty, m):
+    v = deref(ex, args[0])
+    if not isinstance(v, Seq):
+        return NotImplemented
+    if not v.items:
+        return mk_none(dty)
+    return mk_some(dty, v.items.pop(0))
 
 
 @model(r"VecDeque::<.*>::push_back$")
